@@ -216,7 +216,9 @@ def build_shared_features_map(mod: fx.GraphModule,
     # difficult to treat and we remove in this step, treating each single output independently.
     nodes_to_remove = []
     for n in sharing_graph.nodes:
-        if n in get_graph_outputs(mod.graph) and len(n.meta['tensor_meta']) > 1:
+        # (several tensors may also be returned inside ONE top-level container - {'out': (a, b)},
+        # [(a, b)] - whose tensor_meta has length 1: count the tensors, not the containers)
+        if n in get_graph_outputs(mod.graph) and len(list(sharing_graph.predecessors(n))) > 1:
             # tag each predecessor as output-connected
             pred = list(sharing_graph.predecessors(n))
             for i in pred:
